@@ -76,8 +76,8 @@ func hasTag(tags []string, t string) bool {
 func (p *Prog) unitsFor(prop string) []*ssa.Function {
 	var out []*ssa.Function
 	for fn, fc := range p.contracts {
-		if fc.Inline {
-			continue // verified at every inlining site, not as a root
+		if fc.Inline || fc.Trusted {
+			continue // inline: verified at every inlining site; trusted: assumed (listed in the evidence)
 		}
 		tagged := fc.Safety && hasTag(fc.SafetyTags, prop)
 		for _, c := range fc.Clauses {
